@@ -9,8 +9,10 @@ import (
 	"context"
 	"encoding/hex"
 	"fmt"
+	"os"
 	"sort"
 	"strings"
+	"time"
 
 	leveldbstorage "github.com/spikeekips/mitum/storage/leveldb"
 	"github.com/syndtr/goleveldb/leveldb"
@@ -244,6 +246,21 @@ func errOut(err error) out {
 		return out{kind: "err"}
 	}
 	return out{kind: "ok"}
+}
+
+const hangTimeout = 20 * time.Second
+
+var outDir = "."
+
+func (w *world) execGuarded(o op) (out, bool) {
+	ch := make(chan out, 1)
+	go func() { ch <- w.exec(o) }()
+	select {
+	case r := <-ch:
+		return r, false
+	case <-time.After(hangTimeout):
+		return out{}, true
+	}
 }
 
 func (w *world) exec(o op) out {
@@ -788,7 +805,22 @@ func runCase(rp replay, res *vh.Result, cases *vh.Cases, verbose bool) {
 	before := w.dump()
 	nontrivial := false
 	for i, o := range rp.Ops {
-		got := w.exec(o)
+		got, hung := w.execGuarded(o)
+		if hung {
+			// the loops of the code under test must terminate (BatchRemove's restart loop): report and stop,
+			// the stuck goroutine keeps the storage busy
+			r2 := rp
+			r2.Ops = rp.Ops[:i+1]
+			r2.At = i
+			res.Fail("op-does-not-terminate", fmt.Sprintf("op %d %s did not return within %s", i, o.Kind, hangTimeout), r2)
+			res.Note("run aborted after a non-terminating operation")
+			if cases != nil {
+				res.ModelCases = cases.Len()
+				_ = cases.Write(outDir)
+			}
+			res.Write(outDir)
+			os.Exit(0)
+		}
 		after := w.dump()
 		if verbose {
 			fmt.Printf("%3d %-60s -> %s\n", i, o.coq(), got)
@@ -823,6 +855,7 @@ func runCase(rp replay, res *vh.Result, cases *vh.Cases, verbose bool) {
 
 func main() {
 	o := vh.ParseFlags()
+	outDir = o.Out
 	res := vh.NewResult("a case = 3-5 PrefixStorage handles (prefixes ab, ab\\x00, ab\\xff, a, \\xff\\xff, ...) on one mem-leveldb, ~40 random operations (get/exists/put/delete/batch/BatchFunc/iter asc+desc with ranges and early stop/Remove/Close/raw put/RemoveByPrefix/BatchRemove); after every operation the whole raw storage is dumped and the property's statement is checked on before/after; non-trivial = some iteration returned entries or some removal removed part of the storage")
 	if o.Replay != "" {
 		var rp replay
@@ -835,12 +868,12 @@ func main() {
 		}
 		res.Failures = []vh.Failure{}
 	}
-	cases := &vh.Cases{Import: "From MV Require Import C25.Model.", Type: "case", CheckFn: "check", Shard: 60}
+	cases := &vh.Cases{Import: "From MV Require Import C25.Model.", Type: "case", CheckFn: "check", Shard: 100}
 	for _, rp := range corpus() {
 		runCase(rp, res, cases, false)
 	}
 	r := vh.NewRand(o.Seed)
-	n := o.Pick(400, 8000)
+	n := o.Pick(300, 6000)
 	for i := 0; i < n; i++ {
 		runCase(genCase(r, 40), res, cases, false)
 	}
